@@ -15,11 +15,13 @@ What is proved here (✔ of DESIGN §6 C14): the arithmetic core (`gcdx`), the e
 homomorphism (`relator_as_vector`) with rotation / conjugation invariance of the whole result,
 the divisibility pass and the output format, termination of every loop, and that the
 instrumented model used by the driver computes the same values.
-Also proved (○ `clear_step_unimodular`): every single row / column step of the elimination is a
-2×2-block integer operation of determinant ±1 that clears its target entry.
+Also proved (○ `clear_step_unimodular`, ○ `diagonalize_equiv`): every single row / column step of
+the elimination is a 2×2-block integer operation of determinant ±1 that clears its target entry,
+and `diagonalize_in_place` ends in a diagonal `D = U·A·V` with `det U, det V = ±1` (Mathlib
+matrices) — under the side condition `SmallRun` that `find_pivot` never meets an entry of absolute
+value ≥ `isize::MAX` (its minimum search starts there and would overlook it).
 What is NOT proved (kept as `def … : Prop`, evaluated per explored input by the Spec):
-that the composition of these steps is `U·A·V = D` with `D` diagonal (`diagonalize_equiv_statement`)
-and, resting on the uniqueness of the Smith normal form, `abelian_invariants_statement`.
+`abelian_invariants_statement`, which needs the uniqueness of the Smith normal form.
 
 Vocabulary:
   `Inv.InRange n g`      letter of a presentation on n generators: g ≠ 0 ∧ |g| ≤ n
@@ -28,11 +30,14 @@ Vocabulary:
   `Inv.nzProd f`         product of |x| over the non-zero entries x of f
   `Inv.zpat f`           zero pattern `f.map (· = 0)`
   `Inv.Rect mat n m`     n rows, each of length m
+  `Inv.toMatrix mat n m` the Mathlib `Matrix (Fin n) (Fin m) ℤ` with entries `mat[r][c]`
+  `Inv.SmallAt mat`      every entry has absolute value < isize::MAX
+  `Inv.SmallRun is mat`  `SmallAt` holds at the start of each outer iteration `i ∈ is` of
+                         `diagonalize_in_place` started on `mat`
 -/
-import DSymVerif.Proofs.InvariantsSteps
+import DSymVerif.Proofs.InvariantsMatrix
 import DSymVerif.Proofs.InvariantsBound
 import Mathlib.Data.List.Forall2
-import Mathlib.LinearAlgebra.Matrix.Determinant.Basic
 
 namespace DSymVerif.C14
 open DSymVerif DSymVerif.Inv DSymVerif.SpecC14
@@ -261,31 +266,58 @@ theorem clear_step_unimodular_cols (mat : Mat) (n m i col cnt : Nat) (hR : Rect 
       get (clearColStep i (mat, cnt) col).1 i col = 0 :=
   clearColStep_unimodular mat n m i col cnt hR hin hic hcm hz
 
-/-! ## 6. open obligations (statements fixed, not proved; evaluated by the Spec per input) -/
+/-! ## 6. `diagonalize_in_place` computes a diagonal matrix unimodularly equivalent to its input -/
 
-/-- the matrix of a model matrix -/
-def toMatrix (mat : Mat) (n m : Nat) : Matrix (Fin n) (Fin m) ℤ := fun r c => get mat r c
+/-- `find_pivot` returns a zero entry only if every entry of the remaining block is zero or has
+    absolute value ≥ `isize::MAX` (where the minimum search starts) -/
+theorem find_pivot_complete (mat : Mat) (i n m : Nat) (hn : nrows mat = n) (hm : ncols mat = m)
+    (h0 : get mat (findPivot mat i).1 (findPivot mat i).2 = 0) :
+    ∀ r c, i ≤ r → r < n → i ≤ c → c < m →
+      get mat r c = 0 ∨ isizeMax ≤ ((get mat r c).natAbs : Int) :=
+  findPivot_zero mat i n m hn hm h0
 
-/-- ○ `diagonalize_in_place` ends in a diagonal matrix `D = U·A·V` with `U`, `V` unimodular,
-    provided no entry reaches `isize::MAX` on the way (`find_pivot` starts its minimum search at
-    `isize::MAX` and would overlook such an entry).
-    Missing: the invariant "rows and columns `< i` are cleared" through the loops (each single
-    step is covered by `clear_step_unimodular_rows/cols`), and the translation of the entrywise
-    description into matrix products. -/
-def diagonalize_equiv_statement : Prop :=
-  ∀ (mat D : Mat) (n m : Nat), Rect mat n m → 0 < n → diagonalize mat = some D →
-    (diagonalizeB mat 0).2 < isizeMax.toNat →
+example : get [[0, 0], [0, 0]] (findPivot [[0, 0], [0, 0]] 0).1 (findPivot [[0, 0], [0, 0]] 0).2 = 0 := by
+  decide
+
+/-- ○ `diagonalize_equiv`: on an `n × m` matrix `A` the routine ends in `D` with all off-diagonal
+    entries zero and `D = U · A · V` for integer matrices `U`, `V` of determinant ±1 — provided
+    `find_pivot` never meets an entry of absolute value ≥ `isize::MAX` (`SmallRun`; true for every
+    run of the Rust code without overflow, except for the single value `isize::MAX`). -/
+theorem diagonalize_equiv (mat D : Mat) (n m : Nat) (hR : Rect mat n m) (hn : 0 < n)
+    (hS : SmallRun (List.range (min n m)) mat) (h : diagonalize mat = some D) :
     (∀ r c, r < n → c < m → r ≠ c → get D r c = 0) ∧
     ∃ (U : Matrix (Fin n) (Fin n) ℤ) (V : Matrix (Fin m) (Fin m) ℤ),
       (U.det = 1 ∨ U.det = -1) ∧ (V.det = 1 ∨ V.det = -1) ∧
-      U * toMatrix mat n m * V = toMatrix D n m
+      U * toMatrix mat n m * V = toMatrix D n m :=
+  diagonalize_equiv' mat D n m hR hn hS h
+
+/-- non-vacuity: a 1 × 1 instance of all hypotheses -/
+example : Rect [[-3]] 1 1 ∧ 0 < 1 ∧ SmallRun (List.range (min 1 1)) [[-3]] := by
+  refine ⟨⟨rfl, by intro row hrow; simp at hrow; subst hrow; rfl⟩, by decide, ?_⟩
+  have small : ∀ M : Mat, (∀ r c, (get M r c).natAbs ≤ 3) → SmallAt M := by
+    intro M hM r c
+    have := hM r c
+    unfold isizeMax
+    omega
+  show SmallRun [0] [[-3]]
+  refine ⟨small _ ?_, fun M _ => trivial⟩
+  intro r c
+  unfold Inv.get
+  rcases r with _ | r
+  · rcases c with _ | c
+    · decide
+    · simp
+  · simp
+
+/-! ## 7. open obligation (statement fixed, not proved; evaluated by the Spec per input) -/
 
 /-- ◐ the main clause: the returned list is the one the Spec computes from the determinantal
-    divisors.  Needs `diagonalize_equiv_statement` and the invariance of the determinantal
-    divisors under unimodular equivalence (uniqueness of the Smith normal form), which Mathlib
-    does not provide in usable form.  With it, the remaining invariances of the property
-    (reordering / inverting relators, renaming / inverting generators, appending products) follow
-    from `vector_hom_rows`. -/
+    divisors.  With `diagonalize_equiv`, `chain_step` and `output_format` what is missing is the
+    invariance of the determinantal divisors under unimodular equivalence (uniqueness of the Smith
+    normal form; not in Mathlib in usable form) and the discharge of `SmallRun` from the bound of
+    the instrumented model.  With it, the remaining invariances of the property (reordering /
+    inverting relators, renaming / inverting generators, appending products) follow from
+    `vector_hom_rows`, since all of these are unimodular row / column operations on the matrix. -/
 def abelian_invariants_statement : Prop :=
   ∀ (n : Nat) (rels : List (List Int)), (∀ w ∈ rels, ∀ g ∈ w, InRange n g) →
     abelianInvariants n rels = .ok (SpecC14.expected n rels)
